@@ -6,9 +6,9 @@ from pyvc import spec as SP
 from pyvc.sym import Sym
 
 META = {
-    "explanation": "under the unit abstraction 5.1 with generic units of symbolic scale: to_unitless returns magnitude times the exact unit ratio (so multiplying back reproduces the quantity, conversions compose, scaling is linear), element-wise for lists and dicts, and raises for an incompatible target; magnitude/unit_of/rescale/is_unitless; get_derived_unit equals the product of registry units to the SI exponents of an independent table for every key, for every registry; the unit-aware array helpers have the delegation shape numpy_f(magnitudes in one common unit) * unit (polyfit coefficient i carries u_y*u_x^(i-deg)); the Backend wrapper sends every positional argument through to_unitless; chemistry-specific unit definitions and the abstraction itself are checked against the real quantities package (data obligations)",
+    "explanation": "under the unit abstraction 5.1 with generic units of symbolic scale: to_unitless returns magnitude times the exact unit ratio (so multiplying back reproduces the quantity, conversions compose, scaling is linear), element-wise for lists and dicts, and raises for an incompatible target; magnitude/unit_of/rescale/is_unitless; get_derived_unit equals the product of registry units to the SI exponents of an independent table for every key, for every registry; the unit-aware array helpers have the delegation shape numpy_f(magnitudes in one common unit) * unit (polyfit coefficient i carries u_y*u_x^(i-deg)); the Backend wrapper and the patched numpy namespace send every positional argument through to_unitless; allclose decides on physical values within the band that every customary weighting of the relative tolerance agrees on, compare_equality decides on physical values; clauses of the array helpers are stated on physical values (one common unit, whichever); get_physical_dimensionality / default_unit_in_registry / unitless_in_registry / the registry's human-readable round trip against hand-typed values on the real package (data obligations); chemistry-specific unit definitions and the abstraction itself are checked against the real quantities package (data obligations)",
     "trusted_base": ["assumed contract 5.1 (pyvc/qmodel.py) for `quantities`, validated on every run against the installed package by abstraction_validation (fixed behaviours) and abstraction_differential (1400 seeded random expressions: value, dimension, truth value, refusal)", "numpy array routines are uninterpreted (delegation shape only, 5.2)", "SI exponent table typed into this file"],
-    "not_decided": ["correctness of the quantities package itself", "get_physical_dimensionality / default_unit_in_registry / unitless_in_registry / registry human-readable round trip (walk quantities internals): bounded stand-in"],
+    "not_decided": ["correctness of the quantities package itself", "get_physical_dimensionality / default_unit_in_registry / unitless_in_registry / registry human-readable round trip (walk quantities internals): data obligations on chosen quantities and registries here, bounded stand-in beyond them", "allclose between rtol*min(|a|,|b|) and rtol*max(|a|,|b|)+atol (either answer accepted: the weighting of the relative term is not part of the property)"],
     "assumptions": [],
 }
 U = "chempy.units"
@@ -26,6 +26,27 @@ DIMS = ("length", "mass", "time", "current", "temperature", "luminous_intensity"
 def _table(v):
     from pyvc.qmodel import std_table
     return std_table()
+
+
+_MISSING = object()
+
+
+def _arg(call, pos, *names):
+    """argument number `pos` of an uninterpreted numerical call, whether it was handed over by position or by (one of the) keyword(s): the
+    property says WHAT the numerical routine is given, not how the call is spelled (np.linspace(a, b, num=n) is the same call)"""
+    if len(call.args) > pos:
+        return call.args[pos]
+    for n in names:
+        if n in call.kwargs:
+            return call.kwargs[n]
+    return _MISSING
+
+
+def _unit_scale(q):
+    """SI value of ONE unit of a quantity of the abstraction (its magnitude set aside): the helpers must return 'numpy(magnitudes in one common
+    unit) times that unit' -- WHICH common unit (the first argument's, the last one's, SI base units...) is not part of the property, so the
+    clauses are stated on physical values: magnitude handed to numpy * _unit_scale(result) == physical value of the input"""
+    return q.t.scale_of(q.u)
 
 
 @harness("C09", "to_unitless.scalar", functions=[U + ":to_unitless", U + ":magnitude", U + ":unit_of", U + ":rescale"], div_mode="assume", samples=0)
@@ -50,6 +71,11 @@ def _(v):
     v.prove("magnitude", SP.conj([v.call(CU.magnitude, q) == m, v.call(CU.magnitude, 3.5) == 3.5]))
     uo = v.call(CU.unit_of, q)
     v.prove("unit_of", uo.u == {"u1": 1} and uo.mag == 1 and v.call(CU.unit_of, 3.5) == 1)
+    # unit_of(q, simplified=True): the same unit (same physical value of ONE unit, same dimension) written in SI base units
+    from pyvc.qmodel import BASE, dim_of
+    us = v.call(CU.unit_of, q, simplified=True)
+    v.prove("unit_of_simplified.in_base_units_of_the_same_dimension", set(us.u) <= set(BASE) and dim_of(us) == dimv, detail=repr(us))
+    v.prove_identity("unit_of_simplified.same_physical_unit", si_value(us), s1)
     v.prove("plain_number_passthrough", v.call(CU.to_unitless, 3.5, 1) == 3.5)
     # products of powers of different symbols, with a symbol shared between quantity and target cancelling
     ua, ub, uc, ud = (t.generic(n, dd) for n, dd in (("ua", (1, 0, 0, 0, 0, 0, 0)), ("ub", (0, 0, 1, 0, 0, 0, 0)), ("uc", (1, 0, 0, 0, 0, 0, 0)), ("ud", (0, 0, 1, 0, 0, 0, 0))))
@@ -91,9 +117,38 @@ def _(v):
     v.prove("dict_keys", set(r) == {"x", "y"})
     v.prove_identity("dict_x", r["x"] * s3, a * s1)
     v.prove_identity("dict_y", r["y"] * s3, b * s2)
+    from pyvc.qmodel import si_value, dim_of
     un = v.call(CU.uniform, {"x": a * u1, "y": b * u2})
-    v.prove("uniform_dict_takes_first_unit", un["x"].u == {"u1": 1} and un["y"].u == {"u1": 1})
-    v.prove_identity("uniform_dict_value", un["y"].mag * s1, b * s2)
+    # 'uniformisation of mixed-unit containers ... in one common unit': every value comes back in the SAME unit and is physically unchanged; WHICH
+    # common unit (uniform's docstring does not promise the first one) is not part of the property.  (The obligation keeps its historical name.)
+    v.prove("uniform_dict_takes_first_unit", set(un) == {"x", "y"} and un["x"].u == un["y"].u and dim_of(un["x"]) == d, detail=repr(un))
+    v.prove_identity("uniform_dict_value", si_value(un["y"]), b * s2)
+    v.prove_identity("uniform_dict_value_x", si_value(un["x"]), a * s1)
+    # lists / tuples / nested lists of quantities in DIFFERENT units to a dimensional target: element-wise the exact ratio
+    for label, arg in (("list", [a * u1, b * u2]), ("tuple", (a * u1, b * u2))):
+        r = v.call(CU.to_unitless, arg, u3)
+        v.prove(label + "_length", len(r) == 2)
+        v.prove_identity(label + "_0", r[0] * s3, a * s1)
+        v.prove_identity(label + "_1", r[1] * s3, b * s2)
+    r = v.call(CU.to_unitless, [[a * u1, b * u2], [b * u3, a * u2]], u3)
+    v.prove("nested_list_shape", len(r) == 2 and len(r[0]) == 2 and len(r[1]) == 2)
+    v.prove_identity("nested_list_01", r[0][1] * s3, b * s2)
+    v.prove_identity("nested_list_10", r[1][0], b)
+    v.prove_identity("nested_list_11", r[1][1] * s3, a * s2)
+    # ONE incompatible element inside a container: refused, not a number for it (nor for the others)
+    other = t.generic("other", (0, 0, 1, 0, 0, 0, 0))
+    out = v.run(CU.to_unitless, [a * u1, b * other], u3)
+    v.prove("list_with_one_incompatible_element_raises", out.raised(ValueError), detail=repr(out.value if out.returned else out.exc))
+    out = v.run(CU.to_unitless, {"x": a * u1, "y": b * other}, u3)
+    v.prove("dict_with_one_incompatible_element_raises", out.raised(ValueError), detail=repr(out.value if out.returned else out.exc))
+    # uniform / unit_of on a list: one common unit, physical values unchanged; unit_of(container) is the unit of the uniformised container
+    ul = v.call(CU.uniform, [a * u1, b * u2])
+    v.prove("uniform_list_one_common_unit", len(ul) == 2 and dim_of(ul) == d, detail=repr(ul))
+    v.prove_identity("uniform_list_0", si_value(ul[0]), a * s1)
+    v.prove_identity("uniform_list_1", si_value(ul[1]), b * s2)
+    for label, arg in (("list", [a * u1, b * u2]), ("dict", {"x": a * u1, "y": b * u2})):
+        uo = v.call(CU.unit_of, arg)
+        v.prove("unit_of_%s_is_the_common_unit" % label, uo.mag == 1 and uo.u == (ul.u if label == "list" else un["x"].u), detail=repr(uo))
 
 
 @harness("C09", "to_unitless.scaled_dimensionless_target", functions=[U + ":to_unitless", U + ":is_unitless", U + ":rescale", U + ":unit_of", U + ":magnitude"], div_mode="assume", samples=0)
@@ -169,37 +224,54 @@ def _(v):
     x1, x2, y1, y2 = t.generic("x1", L), t.generic("x2", L), t.generic("y1", T), t.generic("y2", T)
     sx1, sx2, sy1, sy2 = (t.scale[k] for k in ("x1", "x2", "y1", "y2"))
     a, b, c, d = (v.real(n, lo=0.1, hi=100) for n in "abcd")
+    from pyvc.qmodel import dim_of
+    sc = _unit_scale
+    # Every clause below is on PHYSICAL values (finding: 'one common unit', not 'the first argument's unit'): the result has the right dimension,
+    # and each magnitude handed to the numerical routine, times the SI value of one unit of the RESULT, is the physical value of the input.  (The
+    # obligation names that say 'first unit' are historical.)  Arguments of the numerical call are looked up by position or keyword.
     r = v.call(CU.linspace, a * x1, b * x2, 7)
-    v.prove("linspace.shape", isinstance(r, Quantity) and r.u == {"x1": 1} and isinstance(r.mag, NPCall) and r.mag.name == "linspace" and r.mag.args[2] == 7)
-    v.prove("linspace.start_in_first_unit", r.mag.args[0] == a)
-    v.prove_identity("linspace.stop_converted_to_first_unit", r.mag.args[1] * sx1, b * sx2)
+    v.prove("linspace.shape", isinstance(r, Quantity) and dim_of(r) == L and isinstance(r.mag, NPCall) and r.mag.name == "linspace" and _arg(r.mag, 2, "num") == 7, detail=repr(r))
+    v.prove_identity("linspace.start_in_first_unit", _arg(r.mag, 0, "start") * sc(r), a * sx1)
+    v.prove_identity("linspace.stop_converted_to_first_unit", _arg(r.mag, 1, "stop") * sc(r), b * sx2)
     r = v.call(CU.concatenate, [[a * x1], [b * x2]])
-    v.prove("concatenate.shape", r.u == {"x1": 1} and r.mag.name == "concatenate")
+    v.prove("concatenate.shape", dim_of(r) == L and r.mag.name == "concatenate", detail=repr(r))
     parts = r.mag.args[0]
-    v.prove("concatenate.first_kept", parts[0][0] == a)
-    v.prove_identity("concatenate.second_converted", parts[1][0] * sx1, b * sx2)
+    v.prove_identity("concatenate.first_kept", parts[0][0] * sc(r), a * sx1)
+    v.prove_identity("concatenate.second_converted", parts[1][0] * sc(r), b * sx2)
     r = v.call(CU.tile, [a * x1, b * x2], 3)
-    v.prove("tile.shape", r.u == {"x1": 1} and r.mag.name == "tile" and r.mag.args[1] == 3 and r.mag.args[0][0] == a)
-    v.prove_identity("tile.converted", r.mag.args[0][1] * sx1, b * sx2)
+    v.prove("tile.shape", dim_of(r) == L and r.mag.name == "tile" and _arg(r.mag, 1, "reps") == 3 and len(_arg(r.mag, 0, "A")) == 2, detail=repr(r))
+    v.prove_identity("tile.first_kept", _arg(r.mag, 0, "A")[0] * sc(r), a * sx1)
+    v.prove_identity("tile.converted", _arg(r.mag, 0, "A")[1] * sc(r), b * sx2)
     coef = v.call(CU.polyfit, [a * x1, b * x2], [c * y1, d * y2], 1)
-    # coefficient i carries u_y * u_x**(i - deg)
-    v.prove("polyfit.units", coef[0].u == {"y1": 1, "x1": -1} and coef[1].u == {"y1": 1})
+    # coefficient i carries u_y * u_x**(i - deg), u_x / u_y being the units the magnitudes were handed to numpy in: its dimension is T*L**(i-deg) and
+    # (SI value of its unit) * (x magnitude)**(deg-i) * ... is consistent with the physical values of the FIRST point (a*sx1, c*sy1)
     pf_args = coef[0].mag.args[0]
+    px, py = pf_args[0], pf_args[1]
+    v.prove("polyfit.units", dim_of(coef[0]) == (-1, 0, 1, 0, 0, 0, 0) and dim_of(coef[1]) == T, detail=repr(coef))
+    v.prove_identity("polyfit.unit_of_slope_is_u_y_per_u_x", sc(coef[0]) * (a * sx1) * py[0], (c * sy1) * px[0])
+    v.prove_identity("polyfit.unit_of_intercept_is_u_y", sc(coef[1]) * py[0], c * sy1)
     v.prove("polyfit.numpy_called_with_degree", pf_args[2] == 1 and coef[0].mag.name == "polyfit_coef")
     # coefficient i of the result is coefficient i of numpy's result (highest power first), not a permutation of it
     v.prove("polyfit.coefficients_in_numpys_order", [cf.mag.args[1] for cf in coef] == [0, 1] and len(coef) == 2)
     coef2 = v.call(CU.polyfit, [a * x1, b * x2, a * x2], [c * y1, d * y2, c * y2], 2)
-    v.prove("polyfit.degree_two", len(coef2) == 3 and [cf.mag.args[1] for cf in coef2] == [0, 1, 2] and coef2[0].u == {"y1": 1, "x1": -2} and coef2[1].u == {"y1": 1, "x1": -1} and coef2[2].u == {"y1": 1}
-            and coef2[0].mag.args[0][2] == 2)
-    v.prove_identity("polyfit.x_magnitudes_in_first_x_unit", pf_args[0][1] * sx1, b * sx2)
-    v.prove_identity("polyfit.y_magnitudes_in_first_y_unit", pf_args[1][1] * sy1, d * sy2)
+    p2x, p2y = coef2[0].mag.args[0][0], coef2[0].mag.args[0][1]
+    v.prove("polyfit.degree_two", len(coef2) == 3 and [cf.mag.args[1] for cf in coef2] == [0, 1, 2] and [dim_of(cf) for cf in coef2] == [(-2, 0, 1, 0, 0, 0, 0), (-1, 0, 1, 0, 0, 0, 0), T]
+            and coef2[0].mag.args[0][2] == 2, detail=repr(coef2))
+    for i in range(3):
+        v.prove_identity("polyfit.degree_two_unit_%d" % i, sc(coef2[i]) * (a * sx1) ** (2 - i) * p2y[0], (c * sy1) * p2x[0] ** (2 - i))
+    # all x (all y) magnitudes are in ONE unit: the ratios of the physical values are kept, and the first point fixes the unit (above)
+    v.prove_identity("polyfit.x_magnitudes_in_first_x_unit", px[1] * (a * sx1), px[0] * (b * sx2))
+    v.prove_identity("polyfit.y_magnitudes_in_first_y_unit", py[1] * (c * sy1), py[0] * (d * sy2))
     p0, p1 = v.real("p0", lo=-5, hi=5), v.real("p1", lo=-5, hi=5)
     r = v.call(CU.polyval, [p1 * (y1 / x1), p0 * y2], [a * x1, b * x2])
-    v.prove("polyval.unit_of_last_coefficient", r.u == {"y2": 1} and r.mag.name == "polyval")
+    v.prove("polyval.unit_of_last_coefficient", dim_of(r) == T and r.mag.name == "polyval", detail=repr(r))
     _p, _x = r.mag.args
-    v.prove_identity("polyval.leading_coefficient_in_u_y_per_u_x", _p[0] * sy2, p1 * sy1)
-    v.prove("polyval.constant_term", _p[1] == p0)
-    v.prove_identity("polyval.x_in_first_unit", _x[1] * sx1, b * sx2)
+    # numpy evaluates _p[0]*_x + _p[1] on magnitudes; times the unit of the result each TERM must be the physical term: the constant p0*y2, the
+    # linear one (p1*y1/x1) * (physical x) for every x -- which also says that all x are in one unit and _p[0] is in (unit of result)/(that unit)
+    v.prove_identity("polyval.leading_coefficient_in_u_y_per_u_x", _p[0] * _x[0] * sc(r) * sx1, p1 * sy1 * (a * sx1))
+    v.prove_identity("polyval.constant_term", _p[1] * sc(r), p0 * sy2)
+    v.prove_identity("polyval.x_in_first_unit", _p[0] * _x[1] * sc(r) * sx1, p1 * sy1 * (b * sx2))
+    v.prove_identity("polyval.all_x_in_one_unit", _x[1] * (a * sx1), _x[0] * (b * sx2))
 
 
 @harness("C09", "Backend.wrapper", functions=[U + ":Backend.__getattr__"], div_mode="assume", samples=0)
@@ -384,10 +456,12 @@ def _(v):
     v.prove("incompatible_target_refused", v.run(CU.rescale, m * u1, other).raised(ValueError))
     v.prove("plain_number_and_one", v.call(CU.rescale, 3.5, 1) == 3.5)
     out = v.run(CU.rescale, 3.5, u1)
-    v.prove("plain_number_with_dimensional_target_refused", not out.returned, detail=repr(out.value if out.returned else None))
+    # refused with one of the exceptions that mean 'cannot convert' (the quantities package raises ValueError, a plain number has no .rescale:
+    # AttributeError, a wrong kind of unit: TypeError) -- a NameError or the like on that path is a bug, not a refusal
+    v.prove("plain_number_with_dimensional_target_refused", out.raised(ValueError, AttributeError, TypeError), detail=repr(out.value if out.returned else out.exc))
 
 
-@harness("C09", "helpers_on_the_real_package", functions=[U + ":rescale", U + ":polyfit", U + ":Backend.__getattr__", U + ":default_unit_in_registry", U + ":unitless_in_registry", U + ":get_derived_unit"], kind="data")
+@harness("C09", "helpers_on_the_real_package", functions=[U + ":rescale", U + ":polyfit", U + ":polyval", U + ":Backend.__getattr__", U + ":default_unit_in_registry", U + ":unitless_in_registry", U + ":get_derived_unit"], kind="data")
 def _(v):
     """behaviours that involve the real quantities/numpy objects: refusal of a plain number with a dimensional target, keyword arguments of the
     numerical routine are passed on, every positional argument of a wrapped function is made unitless, and a registry is read as it is NOW"""
@@ -396,22 +470,56 @@ def _(v):
     from chempy import units as CU
     from chempy.units import default_units as u, SI_base_registry
     refused = []
-    for target in (u.metre, u.km, 2 * u.metre, u.percent):
+    for target in (u.metre, u.km, 2 * u.metre):
         try:
-            CU.rescale(3.0, target)
-            refused.append(False)
-        except Exception:
+            refused.append(("returned", CU.rescale(3.0, target)))
+        except (ValueError, AttributeError, TypeError):         # the 'cannot convert' exceptions; anything else (NameError...) is a bug on that path
             refused.append(True)
-    v.prove("rescale_plain_number_refused_unless_target_is_one", all(refused) and CU.rescale(3.0, 1) == 3.0 and CU.rescale(3.0, 1.0) == 3.0)
+        except Exception as ex:
+            refused.append(("raised", repr(ex)))
+    try:
+        ok1 = CU.rescale(3.0, 1) == 3.0 and CU.rescale(3.0, 1.0) == 3.0
+    except Exception as ex:
+        ok1 = False
+        refused.append(("rescale(3.0, 1) raised", repr(ex)))
+    v.prove("rescale_plain_number_refused_unless_target_is_one", all(r is True for r in refused) and ok1, detail=repr(refused))
+    # a bare number IS dimensionally compatible with a scaled pure-number unit (percent): the property ('the magnitude multiplied by the exact
+    # ratio') makes 3.0 -> 300 %; refusing is tolerated (that is what the code does today), returning any OTHER number is not
+    try:
+        got = CU.rescale(3.0, u.percent)
+        okp, det = abs(float(CU.to_unitless(got)) - 3.0) < 1e-12 and abs(float(CU.to_unitless(got, u.percent)) - 300.0) < 1e-9, repr(got)
+    except (ValueError, AttributeError, TypeError) as ex:
+        okp, det = True, "refused: %r" % ex
+    except Exception as ex:
+        okp, det = False, repr(ex)
+    v.prove("rescale_plain_number_to_percent_is_exact_or_refused", okp, detail=det)
     x = np.array([0.0, 1.0, 2.0, 3.0]) * u.s
     y = np.array([-1.4, 1.7, 4.8, 100.0]) * u.m
     w = [1, 1, 1, 1e-6]
     ref = np.polyfit([0.0, 1.0, 2.0, 3.0], [-1.4, 1.7, 4.8, 100.0], 1, w=w)
-    got = CU.polyfit(x, y, 1, w=w)
-    v.prove("polyfit_weights_are_used", abs(float(CU.to_unitless(got[0], u.m / u.s)) - ref[0]) < 1e-9 and abs(float(CU.to_unitless(got[1], u.m)) - ref[1]) < 1e-9, detail=repr(got))
-    quad = CU.polyfit(x, np.array([1.0, 2.0, 7.0, 16.0]) * u.m, 2)
+    try:        # (an exception of the code under test is a failed obligation, not a checker error)
+        got = CU.polyfit(x, y, 1, w=w)
+        ok, det = abs(float(CU.to_unitless(got[0], u.m / u.s)) - ref[0]) < 1e-9 and abs(float(CU.to_unitless(got[1], u.m)) - ref[1]) < 1e-9, repr(got)
+    except Exception as ex:
+        ok, det = False, repr(ex)
+    v.prove("polyfit_weights_are_used", ok, detail=det)
     refq = np.polyfit([0.0, 1.0, 2.0, 3.0], [1.0, 2.0, 7.0, 16.0], 2)
-    v.prove("polyfit_degree_two_highest_power_first", all(abs(float(CU.to_unitless(c, u.m / u.s ** (2 - i))) - refq[i]) < 1e-9 for i, c in enumerate(quad)))
+    try:
+        quad = CU.polyfit(x, np.array([1.0, 2.0, 7.0, 16.0]) * u.m, 2)
+        ok, det = len(quad) == 3 and all(abs(float(CU.to_unitless(c, u.m / u.s ** (2 - i))) - refq[i]) < 1e-9 for i, c in enumerate(quad)), repr(quad)
+    except Exception as ex:
+        ok, det = False, repr(ex)
+    v.prove("polyfit_degree_two_highest_power_first", ok, detail=det)
+    # x and y EACH in mixed units, fit and evaluation tied together: the line through (0 s, 1 km), (1 min, 3000 m), (2 min, 5 km) is
+    # 1 km + (2 km/min) t = 1 km + (1/30 km/s) t; evaluated at 30 s and 1.5 min (another unit than the fit's) it is 2 km and 4 km
+    try:
+        pm = CU.polyfit([0 * u.s, 1 * u.minute, 2 * u.minute], [1 * u.km, 3000 * u.m, 5 * u.km], 1)
+        ev = CU.polyval(pm, [30 * u.s, 1.5 * u.minute])
+        got = [float(CU.to_unitless(pm[0], u.km / u.s)), float(CU.to_unitless(pm[1], u.km))] + [float(x) for x in CU.to_unitless(ev, u.km)]
+        okm, det = len(pm) == 2 and all(abs(g / w - 1) < 1e-9 for g, w in zip(got, [1 / 30.0, 1.0, 2.0, 4.0])), repr(got)
+    except Exception as ex:
+        okm, det = False, repr(ex)
+    v.prove("polyfit_then_polyval_with_mixed_units", okm, detail=det)
     be = CU.Backend("math")
     try:
         vals = (be.pow(3.0, 2000 * u.m / u.km), be.atan2(1, 1000 * u.mm / u.m))
@@ -420,20 +528,31 @@ def _(v):
         ok2, det = False, repr(ex)
     v.prove("backend_second_argument_made_unitless", ok2, detail=det)
     try:
-        be.pow(2.0, 3 * u.metre)
-        ok = False
-    except Exception:
-        ok = True
-    v.prove("backend_dimensional_second_argument_refused", ok)
+        ok, det = False, "returned %r" % (be.pow(2.0, 3 * u.metre),)
+    except ValueError as ex:                  # the refusal the wrapper documents ('raises an error if ... used with quantities with units')
+        ok, det = True, repr(ex)
+    except Exception as ex:                   # something else went wrong on that path: not a refusal
+        ok, det = False, repr(ex)
+    v.prove("backend_dimensional_second_argument_refused", ok, detail=det)
     reg = dict(SI_base_registry)
-    first = float(CU.unitless_in_registry(3 * u.molar, reg))
+    try:
+        first = float(CU.unitless_in_registry(3 * u.molar, reg))
+        reg["length"] = u.decimetre
+        second = float(CU.unitless_in_registry(3 * u.molar, reg))
+        du = CU.default_unit_in_registry(3 * u.molar, reg)
+        ok = (abs(first - 3000.0) < 1e-9 and abs(second - 3.0) < 1e-12 and abs(float(CU.to_unitless(du, u.mol / u.decimetre ** 3)) - 1) < 1e-12
+              and abs(float(CU.to_unitless(CU.get_derived_unit(reg, "concentration"), u.molar)) - 1) < 1e-12)
+        det = "%r %r %r" % (first, second, du)
+    except Exception as ex:
+        ok, det = False, repr(ex)
+    v.prove("registry_edited_in_place_is_read_again", ok, detail=det)
     reg["length"] = u.decimetre
-    second = float(CU.unitless_in_registry(3 * u.molar, reg))
-    du = CU.default_unit_in_registry(3 * u.molar, reg)
-    v.prove("registry_edited_in_place_is_read_again", abs(first - 3000.0) < 1e-9 and abs(second - 3.0) < 1e-12 and abs(float(CU.to_unitless(du, u.mol / u.decimetre ** 3)) - 1) < 1e-12
-            and abs(float(CU.to_unitless(CU.get_derived_unit(reg, "concentration"), u.molar)) - 1) < 1e-12, detail="%r %r %r" % (first, second, du))
     other = dict(SI_base_registry, time=u.minute)
-    v.prove("another_registry_alive_at_the_same_time", abs(float(CU.unitless_in_registry(2 / u.second, other)) - 120.0) < 1e-9 and abs(float(CU.unitless_in_registry(2 / u.second, reg)) - 2.0) < 1e-12)
+    try:
+        ok, det = abs(float(CU.unitless_in_registry(2 / u.second, other)) - 120.0) < 1e-9 and abs(float(CU.unitless_in_registry(2 / u.second, reg)) - 2.0) < 1e-12, ""
+    except Exception as ex:
+        ok, det = False, repr(ex)
+    v.prove("another_registry_alive_at_the_same_time", ok, detail=det)
 
 
 @harness("C09", "bare_units_and_exact_registry_round_trip", functions=[U + ":Backend.__getattr__", U + ":unit_registry_to_human_readable", U + ":unit_registry_from_human_readable"], kind="data")
@@ -451,8 +570,10 @@ def _(v):
     for arg in (u.metre, u.second, 3 * u.metre):
         try:
             out.append(("returned", be.exp(arg)))
-        except Exception:
+        except ValueError:                    # the documented refusal; any other exception is a bug on that path
             out.append("refused")
+        except Exception as ex:
+            out.append(("raised", repr(ex)))
     v.prove("dimensional_bare_unit_refused", out == ["refused"] * 3, detail=repr(out))
     try:
         got = (be.exp(u.percent), be.exp(1 * u.percent), be.log10(u.km / u.m))
@@ -468,27 +589,94 @@ def _(v):
         ok, det = False, repr(ex)
     v.prove("object_array_of_quantities_converted", ok, detail=det)
     try:
-        nbe.exp(np.array([1 * u.metre, 2 * u.metre], dtype=object))
-        ok = False
-    except Exception:
-        ok = True
-    v.prove("object_array_of_dimensional_quantities_refused", ok)
+        ok, det = False, "returned %r" % (nbe.exp(np.array([1 * u.metre, 2 * u.metre], dtype=object)),)
+    except ValueError as ex:
+        ok, det = True, repr(ex)
+    except Exception as ex:
+        ok, det = False, repr(ex)
+    v.prove("object_array_of_dimensional_quantities_refused", ok, detail=det)
     reg = dict(CU.SI_base_registry, length=(1 / 3.0) * u.nanometre, time=(1 / 60.0) * u.second, amount=(1 / 6.02214076e23) * u.mole, mass=0.1 * 3 * u.gram)
-    back = CU.unit_registry_from_human_readable(CU.unit_registry_to_human_readable(reg))
-    ratios = {k: float(CU.to_unitless(reg[k], back[k])) for k in reg}
-    v.prove("round_trip_ratio_exactly_one", set(back) == set(reg) and all(r == 1.0 for r in ratios.values()), detail=repr(ratios))
+    back = hr = None
+    try:        # (an exception of the code under test is a failed obligation, not a checker error)
+        back = CU.unit_registry_from_human_readable(CU.unit_registry_to_human_readable(reg))
+        ratios = {k: float(CU.to_unitless(reg[k], back[k])) for k in reg}
+        ok, det = set(back) == set(reg) and all(r == 1.0 for r in ratios.values()), repr(ratios)
+    except Exception as ex:
+        ok, det = False, repr(ex)
+    v.prove("round_trip_ratio_exactly_one", ok, detail=det)
     q = 7 * u.nanometre / u.second
-    v.prove("round_trip_same_magnitudes", float(CU.unitless_in_registry(q, reg)) == float(CU.unitless_in_registry(q, back)))
+    try:
+        ok, det = float(CU.unitless_in_registry(q, reg)) == float(CU.unitless_in_registry(q, back)), ""
+    except Exception as ex:
+        ok, det = False, repr(ex)
+    v.prove("round_trip_same_magnitudes", ok, detail=det)
+    # ... against the number known by hand, not only one call against another: 7 nm/s in units of (1/3 nm)/(1/60 s) = 20 nm/s is 7*3/60 = 0.35
+    try:
+        got = [float(CU.unitless_in_registry(q, r_)) for r_ in (reg, back)]
+        ok, det = all(abs(g / 0.35 - 1) < 1e-12 for g in got), repr(got)
+    except Exception as ex:
+        ok, det = False, repr(ex)
+    v.prove("registry_with_factors_known_magnitude", ok, detail=det)
+    # the HUMAN-READABLE form itself (identity functions would satisfy the two round-trip obligations above): per base dimension one plain number
+    # and the symbol or name of the unit, nothing else -- so it survives being written out as text (JSON) and read again, with ratio exactly one
+    import json
+    try:
+        hr = CU.unit_registry_to_human_readable(reg)
+        entries = {k: tuple(e) for k, e in hr.items()}
+        plain = set(hr) == set(reg) and all(len(e) == 2 and type(e[0]) in (float, int) and type(e[1]) is str for e in entries.values())
+        known = (plain and entries["length"][0] == 1 / 3.0 and entries["length"][1] in ("nm", "nanometer", "nanometre") and entries["time"][0] == 1 / 60.0 and entries["time"][1] in ("s", "second")
+                 and entries["mass"][0] == 0.1 * 3 and entries["mass"][1] in ("g", "gram") and entries["amount"][1] in ("mol", "mole") and entries["current"][0] == 1.0 and entries["current"][1] in ("A", "ampere"))
+        det = repr(hr)
+    except Exception as ex:
+        plain = known = False
+        det = repr(ex)
+    v.prove("human_readable_form_is_a_number_and_a_unit_name", plain and known, detail=det)
+    try:
+        back_j = CU.unit_registry_from_human_readable(json.loads(json.dumps(hr)))
+        ratios = {k: float(CU.to_unitless(reg[k], back_j[k])) for k in reg}
+        ok, det = set(back_j) == set(reg) and all(r == 1.0 for r in ratios.values()), repr(ratios)
+    except Exception as ex:
+        ok, det = False, repr(ex)
+    v.prove("round_trip_through_text_ratio_exactly_one", ok, detail=det)
+    # 'a registry of standard prefixed units': milli- and micro-prefixed units of every base dimension that has them here, the unit chempy defines
+    # itself (decimetre), a unit whose symbol is a Python keyword (attosecond, 'as'), and a base dimension switched off with the integer 1; every
+    # unit read back is compared with its SI value typed in here (not only with the registry it came from)
+    SIVAL = {"length": u.metre, "mass": u.kilogram, "time": u.second, "current": u.ampere, "temperature": u.kelvin, "amount": u.mole}
+    for label, reg_p, want in (
+            ("milli", dict(CU.SI_base_registry, length=u.decimetre, mass=u.mg, time=u.ms, current=u.mA, temperature=u.mK, amount=u.mmol, luminous_intensity=1),
+             {"length": 1e-1, "mass": 1e-6, "time": 1e-3, "current": 1e-3, "temperature": 1e-3, "amount": 1e-3}),
+            ("micro", dict(CU.SI_base_registry, length=u.um, time=u.attosecond, current=u.uA, temperature=u.uK, amount=u.umol),
+             {"length": 1e-6, "mass": 1.0, "time": 1e-18, "current": 1e-6, "temperature": 1e-6, "amount": 1e-6})):
+        try:
+            hr_p = CU.unit_registry_to_human_readable(reg_p)
+            back_p = CU.unit_registry_from_human_readable(json.loads(json.dumps(hr_p)))
+            si = {k: float(CU.to_unitless(back_p[k], SIVAL[k])) for k in want}
+            ok = (set(back_p) == set(reg_p) and all(abs(si[k] / want[k] - 1) < 1e-12 for k in want) and all(float(CU.to_unitless(reg_p[k], back_p[k])) == 1.0 for k in want)
+                  and all(type(e[1]) is str or e[1] == 1 for e in map(tuple, hr_p.values())))
+            if isinstance(reg_p["luminous_intensity"], int):       # the switched-off dimension comes back as the plain number one
+                ok = ok and back_p["luminous_intensity"] == 1 and not hasattr(back_p["luminous_intensity"], "dimensionality")
+            det = "%r -> %r" % (hr_p, si)
+        except Exception as ex:
+            ok, det = False, repr(ex)
+        v.prove("round_trip_of_%s_prefixed_units" % label, ok, detail=det[:400])
+    try:
+        ok, det = CU.unit_registry_to_human_readable(None) is None and CU.unit_registry_from_human_readable(None) is None, ""
+    except Exception as ex:
+        ok, det = False, repr(ex)
+    v.prove("no_registry_round_trips_to_no_registry", ok, detail=det)
 
 
 @harness("C09", "closeness_and_logarithmic_spacing", functions=[U + ":allclose", U + ":logspace_from_lin"], div_mode="assume", samples=0)
 def _(v):
-    """'closeness test' and 'logarithmic spacing' of the property: allclose on two quantities in two different compatible units decides
-    |a - b| <= rtol*|a| (+ atol) on the PHYSICAL values, whatever the two units are (so it is what the numerical comparison returns on magnitudes
-    in one common unit); incompatible dimensions are not close; logspace_from_lin hands numpy the logarithms of the magnitudes in the first
-    argument's unit and returns the result times that unit"""
+    """'closeness test' and 'logarithmic spacing' of the property: allclose on two quantities in two different compatible units decides on the
+    PHYSICAL values, whatever the two units are, and takes the absolute tolerance in any compatible unit (so it is what a numerical closeness test
+    returns on magnitudes in one common unit).  WHICH of the customary weightings of the relative term is used (|a| as in this implementation, |b|
+    as in numpy.allclose, or a symmetric one) is not part of the property: the answer must be True whenever the difference is within
+    rtol*min(|a|,|b|) and False whenever it exceeds rtol*max(|a|,|b|) + atol; in between either answer is accepted.  Incompatible dimensions are
+    not close.  logspace_from_lin hands numpy the logarithms of the magnitudes in one common unit, spaces them linearly, takes the inverse function
+    and returns the result times that unit"""
     from chempy import units as CU
-    from pyvc.qmodel import NPCall, Quantity
+    from pyvc.qmodel import NPCall, Quantity, dim_of
     t = _table(v)
     L = (1, 0, 0, 0, 0, 0, 0)
     T = (0, 0, 1, 0, 0, 0, 0)
@@ -498,26 +686,51 @@ def _(v):
     rtol, atol = v.real("rtol", lo=0, hi=1), v.real("atol", lo=0, hi=10)
     from pyvc.sym import wrap, to_z3
     import z3
-    iff = lambda got, want: wrap(to_z3(got) == to_z3(want)) if not isinstance(got, bool) else (wrap(to_z3(want)) if got else ~wrap(to_z3(want)))
+
+    def decided(got, pairs, rt, at):
+        """pairs: physical values (pa, pb) compared element-wise.  got must be True when every |pa-pb| <= rt*min(|pa|,|pb|), and False when some
+        |pa-pb| > rt*max(|pa|,|pb|) + at"""
+        surely, surely_not = [], []
+        for pa, pb in pairs:
+            za, zb = to_z3(abs(pa)), to_z3(abs(pb))
+            diff = to_z3(abs(pa - pb))
+            surely.append(diff <= to_z3(rt) * z3.If(za <= zb, za, zb))
+            surely_not.append(diff > to_z3(rt) * z3.If(za <= zb, zb, za) + to_z3(at))
+        g = z3.BoolVal(got) if isinstance(got, bool) else to_z3(got)
+        return wrap(z3.And(z3.Implies(z3.And(*surely), g), z3.Implies(z3.Or(*surely_not), z3.Not(g))))
     r = v.call(CU.allclose, a * x1, b * x2, rtol)
-    v.prove("allclose.relative_on_physical_values", iff(r, abs(a * sx1 - b * sx2) <= abs(a * sx1) * rtol))
+    v.prove("allclose.relative_on_physical_values", decided(r, [(a * sx1, b * sx2)], rtol, 0))
     r = v.call(CU.allclose, a * x1, b * x2, rtol, atol * x3)
-    v.prove("allclose.absolute_term_in_any_unit", iff(r, abs(a * sx1 - b * sx2) <= abs(a * sx1) * rtol + atol * sx3))
+    v.prove("allclose.absolute_term_in_any_unit", decided(r, [(a * sx1, b * sx2)], rtol, atol * sx3))
+    # the absolute tolerance really is used (the band above also admits an implementation that ignores it): with rtol = 0 the test is
+    # |a - b| <= atol on physical values, for every weighting of the relative term
+    r = v.call(CU.allclose, a * x1, b * x2, 0, atol * x3)
+    v.prove("allclose.absolute_term_alone", wrap(to_z3(r) == to_z3(abs(a * sx1 - b * sx2) <= atol * sx3)) if not isinstance(r, bool) else r == (abs(a * sx1 - b * sx2) <= atol * sx3))
     r = v.call(CU.allclose, a * x1, b * y1, rtol)
     v.prove("allclose.incompatible_dimensions_are_not_close", r is False or r == False)  # noqa: E712
-    r = v.call(CU.allclose, [a * x1, b * x1], [a * x2, b * x2], rtol)
-    v.prove("allclose.lists_element_wise", iff(r, (abs(a * sx1 - a * sx2) <= abs(a * sx1) * rtol) & (abs(b * sx1 - b * sx2) <= abs(b * sx1) * rtol)))
+    # lists: element-wise, ALL elements.  One pair is the general one (two units), the other is identical on both sides (difference 0: close under
+    # every rule), once in each position -- so 'any' for 'all', looking at one position only, or pairing crosswise all give a wrong answer, and each
+    # query stays as small as the scalar one (two general pairs at once made the solver give up on correct implementations with another weighting)
+    r = v.call(CU.allclose, [a * x1, 2 * x3], [b * x2, 2 * x3], rtol)
+    v.prove("allclose.lists_element_wise", decided(r, [(a * sx1, b * sx2)], rtol, 0))
+    r = v.call(CU.allclose, [2 * x3, a * x1], [2 * x3, b * x2], rtol)
+    v.prove("allclose.lists_element_wise_second_position", decided(r, [(a * sx1, b * sx2)], rtol, 0))
     c, d = v.real("c", lo=0.1, hi=100), v.real("d", lo=0.1, hi=100)
     r = v.call(CU.logspace_from_lin, c * x1, d * x2, 9)
-    v.prove("logspace.shape", isinstance(r, Quantity) and r.u == {"x1": 1} and isinstance(r.mag, NPCall) and r.mag.name == "exp2")
+    # shape: inverse(linspace(log(start), log(stop), num)) * unit for ANY logarithm/inverse pair (the points are the same geometric sequence);
+    # the engine models exp2/log2 (and exp/log) -- another spelling (np.geomspace) would need a model in the engine first
+    PAIRS = {"exp2": "log2", "exp": "log", "power10": "log10"}
+    v.prove("logspace.shape", isinstance(r, Quantity) and dim_of(r) == L and isinstance(r.mag, NPCall) and r.mag.name in PAIRS and len(r.mag.args) == 1, detail=repr(r))
     inner = r.mag.args[0]
-    v.prove("logspace.linear_spacing_of_logarithms", isinstance(inner, NPCall) and inner.name == "linspace" and inner.args[2] == 9)
-    lo_, hi_ = inner.args[0], inner.args[1]
+    v.prove("logspace.linear_spacing_of_logarithms", isinstance(inner, NPCall) and inner.name == "linspace" and _arg(inner, 2, "num") == 9)
+    lo_, hi_ = _arg(inner, 0, "start"), _arg(inner, 1, "stop")
     from pyvc.sym import wrap_num
     zlo, zhi = to_z3(lo_), to_z3(hi_)
-    v.prove("logspace.both_ends_are_log2_of_a_magnitude", zlo.decl().name() == "log2" and zhi.decl().name() == "log2" and zlo.num_args() == 1 and zhi.num_args() == 1)
-    v.prove_identity("logspace.start_in_first_unit", wrap_num(zlo.arg(0)), c)
-    v.prove_identity("logspace.stop_converted_to_first_unit", wrap_num(zhi.arg(0)) * sx1, d * sx2)
+    log_name = PAIRS.get(r.mag.name)
+    v.prove("logspace.both_ends_are_log2_of_a_magnitude", zlo.decl().name() == log_name and zhi.decl().name() == log_name and zlo.num_args() == 1 and zhi.num_args() == 1, detail="%r %r" % (zlo, zhi))
+    # on physical values: (magnitude whose logarithm is handed over) * (SI value of one unit of the result) is the physical end point
+    v.prove_identity("logspace.start_in_first_unit", wrap_num(zlo.arg(0)) * _unit_scale(r), c * sx1)
+    v.prove_identity("logspace.stop_converted_to_first_unit", wrap_num(zhi.arg(0)) * _unit_scale(r), d * sx2)
 
 
 @harness("C09", "closeness_of_containers_of_different_length", functions=[U + ":allclose"], kind="data")
@@ -526,17 +739,215 @@ def _(v):
     match) -- uniform-unit arrays, mixed-unit lists, and an empty container against a non-empty one; equal lengths are compared element-wise"""
     import warnings
     from chempy.units import allclose, default_units as u
-    out = {}
+    out, raised = {}, {}
     with warnings.catch_warnings():
         warnings.simplefilter("ignore")
         for label, a, b in (("array_prefix", [1, 2] * u.m, [1, 2, 3] * u.m), ("mixed_units_prefix", [1 * u.m, 2 * u.km], [1 * u.m, 2 * u.km, 3 * u.m]), ("empty_left", [], [1 * u.m]),
                             ("empty_right", [1 * u.m], []), ("longer_left", [1 * u.m, 2 * u.km, 3 * u.m], [1 * u.m, 2 * u.km])):
             try:
                 out[label] = bool(allclose(a, b))
-            except Exception:
+            except Exception as ex:
+                # numpy's own routine refuses some shape mismatches (ValueError) instead of answering False: tolerated for the uniform-unit ARRAYS
+                # only, and recorded -- an implementation that raises for every container must not pass as 'never close'
                 out[label] = False
-    v.prove("different_lengths_are_not_close", not any(out.values()), detail=repr(out))
-    v.prove("equal_lengths_element_wise", bool(allclose([1 * u.m, 2 * u.km], [100 * u.cm, 2000 * u.m])) and not bool(allclose([1 * u.m, 2 * u.km], [100 * u.cm, 2001 * u.m])))
+                raised[label] = repr(ex)
+        v.prove("different_lengths_are_not_close", not any(out.values()), detail=repr(out))
+        v.prove("different_lengths_of_lists_are_answered_not_refused", not (set(raised) - {"array_prefix"}), detail=repr(raised))
+        try:
+            ok = bool(allclose([1 * u.m, 2 * u.km], [100 * u.cm, 2000 * u.m])) and not bool(allclose([1 * u.m, 2 * u.km], [100 * u.cm, 2001 * u.m]))
+        except Exception as ex:
+            ok = False
+        v.prove("equal_lengths_element_wise", ok)
+
+
+@harness("C09", "closeness_on_arrays", functions=[U + ":allclose"], kind="data")
+def _(v):
+    """'closeness test ... returns what the plain numerical routine returns on the magnitudes expressed in one common unit', for ARRAYS of
+    quantities (the symbolic harness covers scalars and lists of scalars): ALL elements must be close (one bad element of two is enough for
+    False), array against scalar in either order, two-dimensional arrays, an absolute tolerance in another unit, and quantities with uncertainty
+    (compared by their nominal value).  Expected answers by hand: the differences are 0 or at least 1e-3 relative, far from any tolerance used"""
+    import warnings
+    import numpy as np
+    import quantities as pq
+    from chempy.units import allclose, default_units as u
+    cases = [
+        ("all_elements_close", lambda: allclose([1, 2] * u.km, [1000, 2000] * u.m), True),
+        ("one_bad_element_of_two_first", lambda: allclose([1, 2] * u.km, [1001, 2000] * u.m), False),
+        ("one_bad_element_of_two_last", lambda: allclose([1, 2] * u.km, [1000, 2001] * u.m), False),
+        # |1001 m - 1 km| = 1 m against atol 0.5 m / 2 m, rtol = 0: array difference, scalar-or-array limit
+        ("array_vs_scalar_atol_too_small", lambda: allclose([1000., 1001.] * u.m, 1 * u.km, rtol=0, atol=.5 * u.m), False),
+        ("array_vs_scalar_atol_large_enough", lambda: allclose([1000., 1001.] * u.m, 1 * u.km, rtol=0, atol=2 * u.m), True),
+        ("array_vs_scalar_atol_in_another_unit", lambda: allclose([1000., 1001.] * u.m, 1 * u.km, rtol=0, atol=200 * u.cm), True),
+        ("scalar_vs_array_one_bad", lambda: allclose(1 * u.km, [1000., 1001.] * u.m, rtol=1e-6), False),
+        ("scalar_vs_array_all_close", lambda: allclose(1 * u.km, [1000., 1000.] * u.m, rtol=1e-6), True),
+        ("two_dimensional_close", lambda: allclose(np.array([[1., 2], [3, 4]]) * u.km, np.array([[1000., 2000], [3000, 4000]]) * u.m), True),
+        ("two_dimensional_one_bad", lambda: allclose(np.array([[1., 2], [3, 4]]) * u.km, np.array([[1000., 2000], [3000, 4001]]) * u.m), False),
+        ("per_element_relative_limit", lambda: allclose([1., 1000.] * u.m, [1.5, 1000.] * u.m, rtol=0.01), False),   # 0.5 m is within 1 % of 1000 m, not of 1 m
+        ("uncertain_quantity_left", lambda: allclose(pq.UncertainQuantity(1, u.km, .1), 1000 * u.m), True),
+        ("uncertain_quantity_left_far", lambda: allclose(pq.UncertainQuantity(1, u.km, .1), 1001 * u.m), False),
+        ("uncertain_quantity_right", lambda: allclose(1000 * u.m, pq.UncertainQuantity(1, u.km, .1)), True),
+        ("uncertain_quantity_right_far", lambda: allclose(1001 * u.m, pq.UncertainQuantity(1, u.km, .1)), False),
+    ]
+    with warnings.catch_warnings():
+        warnings.simplefilter("ignore")
+        for label, f, want in cases:
+            try:
+                got = f()
+                ok, det = bool(got) is want, repr(got)
+            except Exception as ex:
+                ok, det = False, repr(ex)
+            v.prove(label, ok, detail=det)
+
+
+@harness("C09", "compare_equality", functions=[U + ":compare_equality"], div_mode="assume", samples=0)
+def _(v):
+    """equality of two quantities is decided on PHYSICAL values ('the exact ratio of the two units'): a*x1 equals b*x2 iff a*scale(x1) ==
+    b*scale(x2); quantities of different dimension -- and a quantity against a bare number -- are never equal (no exception); containers
+    element-wise, of different length never; None equals None"""
+    from chempy import units as CU
+    from pyvc.sym import wrap, to_z3
+    t = _table(v)
+    L = (1, 0, 0, 0, 0, 0, 0)
+    x1, x2, y1 = t.generic("x1", L), t.generic("x2", L), t.generic("y1", (0, 0, 1, 0, 0, 0, 0))
+    sx1, sx2 = t.scale["x1"], t.scale["x2"]
+    a, b = v.real("a", lo=-100, hi=100), v.real("b", lo=-100, hi=100)
+    iff = lambda got, want: wrap(to_z3(got) == to_z3(want)) if not isinstance(got, bool) else (wrap(to_z3(want)) if got else ~wrap(to_z3(want)))
+    r = v.call(CU.compare_equality, a * x1, b * x2)
+    v.prove("decided_on_physical_values", iff(r, a * sx1 == b * sx2))
+    r = v.call(CU.compare_equality, a * x1, a * x1)
+    v.prove("reflexive", r is True or r == True)  # noqa: E712
+    r = v.call(CU.compare_equality, a * x1, b * y1)
+    v.prove("different_dimensions_are_not_equal", r is False or r == False)  # noqa: E712
+    r = v.call(CU.compare_equality, a * x1, 3)
+    v.prove("quantity_against_bare_number_is_not_equal", r is False or r == False)  # noqa: E712
+    v.prove("none_equals_none", v.call(CU.compare_equality, None, None) is True)
+    r = v.call(CU.compare_equality, [a * x1, None], [b * x2, None])
+    v.prove("containers_element_wise", iff(r, a * sx1 == b * sx2))
+    r = v.call(CU.compare_equality, [a * x1, None], [a * x1, None, None])
+    v.prove("containers_of_different_length_are_not_equal", r is False or r == False)  # noqa: E712
+
+
+@harness("C09", "compare_equality_on_the_real_package", functions=[U + ":compare_equality"], kind="data")
+def _(v):
+    """the same clauses on objects of the real package (documented examples and hand values): equal physical values in different units are equal,
+    unequal ones are not, a dimension mismatch or a bare number is 'not equal' rather than an exception, arrays and lists element-wise"""
+    import numpy as np
+    from chempy.units import compare_equality as ce, default_units as u
+    cases = [
+        ("same_value_other_unit", lambda: ce(3 * u.km, 3000 * u.m), True), ("other_value", lambda: ce(3 * u.km, 3001 * u.m), False),
+        ("same_number_other_unit", lambda: ce(3 * u.km, 3 * u.m), False), ("bare_number", lambda: ce(3 * u.km, 3), False),
+        ("other_dimension", lambda: ce(3 * u.km, 3 * u.second), False), ("none_none", lambda: ce(None, None), True),
+        ("compound_units", lambda: ce(1 * u.molar, 1000 * u.mol / u.metre ** 3), True),
+        ("list_with_none", lambda: ce([3 * u.km, None], [3000 * u.m, None]), True), ("list_with_none_other_value", lambda: ce([3 * u.km, None], [3 * u.m, None]), False),
+        ("lists_of_different_length", lambda: ce([3 * u.km, None], [3 * u.km, None, None]), False),
+    ]
+    for label, f, want in cases:
+        try:
+            got = f()
+            ok, det = bool(np.all(got)) is want, repr(got)
+        except Exception as ex:
+            ok, det = False, repr(ex)
+        v.prove(label, ok, detail=det)
+
+
+@harness("C09", "patched_numpy", functions=[U + ":_wrap_numpy", U + ":<module patched_numpy>"], kind="data")
+def _(v):
+    """the numpy namespace chempy hands out with unit support: its transcendental functions take every argument through to_unitless (a
+    dimensional argument is refused -- in ANY position --, a scaled pure number such as km/m or percent is converted with the exact ratio before
+    the call), and its array helpers are the unit-aware ones of this property"""
+    import math
+    import numpy as np
+    from chempy import units as CU
+    from chempy.units import default_units as u, patched_numpy as pn
+
+    def outcome(f):
+        try:
+            return ("returned", f())
+        except ValueError:
+            return "refused"
+        except Exception as ex:
+            return ("raised", repr(ex))
+    got = [outcome(lambda: pn.exp(3 * u.km)), outcome(lambda: pn.log(2 * u.second)), outcome(lambda: pn.log10(u.metre)), outcome(lambda: pn.expm1(1 * u.mol / u.dm3))]
+    v.prove("dimensional_argument_refused", got == ["refused"] * 4, detail=repr(got))
+    got = [outcome(lambda: pn.logaddexp(1 * u.percent, 2 * u.m)), outcome(lambda: pn.logaddexp2(2 * u.m, 1.0))]
+    v.prove("dimensional_argument_refused_in_any_position", got == ["refused"] * 2, detail=repr(got))
+    try:
+        vals = [float(pn.log10(u.km / u.m)), float(pn.log10(1000 * u.m / u.km)), float(pn.exp(50 * u.percent)), float(pn.log2(8000 * u.mm / u.m)), float(pn.logaddexp(0.0, 100 * u.percent)),
+                float(pn.log1p(100 * u.percent)), float(pn.exp(2.0))]
+        want = [3.0, 0.0, math.exp(0.5), 3.0, math.log(1 + math.e), math.log(2.0), math.exp(2.0)]
+        ok, det = all(abs(g - w) < 1e-12 for g, w in zip(vals, want)), repr(vals)
+    except Exception as ex:
+        ok, det = False, repr(ex)
+    v.prove("scaled_pure_number_converted_before_the_call", ok, detail=det)
+    try:
+        arr = pn.exp(np.array([0.0, 1.0]) * u.m / u.cm)
+        ok, det = np.allclose(np.asarray(arr, dtype=float), [1.0, math.exp(100.0)], rtol=1e-13), repr(arr)
+    except Exception as ex:
+        ok, det = False, repr(ex)
+    v.prove("arrays_of_ratios_converted", ok, detail=det)
+    # ... judged by what they return on MIXED units (hand values), not by being one particular function object
+    tu = CU.to_unitless
+    checks = {
+        "linspace": lambda: [float(x) for x in tu(pn.linspace(0 * u.m, 1 * u.km, 3), u.m)] == [0.0, 500.0, 1000.0],
+        "concatenate": lambda: [float(x) for x in tu(pn.concatenate(([1.0] * u.km, [2.0] * u.m)), u.m)] == [1000.0, 2.0],
+        "tile": lambda: [float(x) for x in tu(pn.tile([1.0 * u.km, 2.0 * u.m], 2), u.m)] == [1000.0, 2.0, 1000.0, 2.0],
+        "allclose": lambda: bool(pn.allclose(1 * u.km, 1000 * u.m)) and not bool(pn.allclose(1 * u.km, 1 * u.m)),
+        # line through (0 min, 1 km), (1 min, 3 km), (2 min, 5 km): 2 km/min and 1 km; at 30 s and 90 s: 2 km and 4 km
+        "polyfit_polyval": lambda: all(abs(float(g) - w) < 1e-9 for g, w in zip(tu(pn.polyval(pn.polyfit([0, 1, 2] * u.minute, [1, 3, 5] * u.km, 1), [30, 90] * u.s), u.km), [2.0, 4.0])),
+    }
+    bad = {}
+    for n, f in checks.items():
+        try:
+            if not f():
+                bad[n] = "wrong value"
+        except Exception as ex:
+            bad[n] = repr(ex)
+    v.prove("array_helpers_are_the_unit_aware_ones", not bad, detail=repr(bad))
+    v.prove("the_rest_is_numpy", pn.sqrt is np.sqrt and pn.pi == np.pi)
+
+
+@harness("C09", "physical_dimensionality_and_registry_defaults", functions=[U + ":get_physical_dimensionality", U + ":default_unit_in_registry", U + ":unitless_in_registry", U + ":_get_unit_from_registry"], kind="data")
+def _(v):
+    """'the reported physical dimensionality, the default unit and magnitude of a quantity in any base-unit registry ... are all consistent with
+    that same ratio': dimensionalities against SI exponents typed in here (also of chempy's own units, fractional powers, pure numbers and
+    mixed-unit lists); magnitudes in a registry whose base units carry FACTORS (0.1 m, minute, gram) against hand calculation; and
+    to_unitless(q, default_unit_in_registry(q, reg)) == unitless_in_registry(q, reg)"""
+    from chempy import units as CU
+    from chempy.units import default_units as u, SI_base_registry, get_physical_dimensionality as gpd
+    cases = [
+        ("molar", lambda: 3 * u.molar, {"amount": 1, "length": -3}),
+        ("per100eV", lambda: 3 * u.per100eV, {"mass": -1, "length": -2, "time": 2, "amount": 1}),       # mol/J, J = kg m2 s-2
+        ("newton", lambda: 2 * u.newton, {"mass": 1, "length": 1, "time": -2}),
+        ("volt", lambda: 1 * u.volt, {"mass": 1, "length": 2, "time": -3, "current": -1}),              # W/A
+        ("kelvin_per_second", lambda: 1 * u.kelvin / u.second, {"temperature": 1, "time": -1}),
+        ("square_root_of_length", lambda: (4 * u.m) ** 0.5, {"length": 0.5}),
+        ("percent", lambda: 50 * u.percent, {}),
+        ("ratio_of_lengths", lambda: 3 * u.km / u.m, {}),
+        ("plain_number", lambda: 3.0, {}),
+        ("mixed_unit_list", lambda: [1 * u.km, 200 * u.m], {"length": 1}),
+    ]
+    for label, q, want in cases:
+        try:
+            got = gpd(q())
+            ok, det = isinstance(got, dict) and set(got) == set(want) and all(float(got[k]) == want[k] for k in want), repr(got)
+        except Exception as ex:
+            ok, det = False, repr(ex)
+        v.prove("dimensionality." + label, ok, detail=det)
+    # one unit of the registry: concentration mol/(0.1 m)^3 = 1000 mol/m3; energy g (0.1 m)^2 / min^2 = 1e-3 * 1e-2 / 3600 J; velocity 0.1 m / 60 s;
+    # density g/(0.1 m)^3 = 1 kg/m3
+    reg = dict(SI_base_registry, length=0.1 * u.metre, time=u.minute, mass=u.gram)
+    table = [("concentration", 3 * u.molar, 3.0), ("energy", 2 * u.joule, 2 * 3600 / 1e-5), ("velocity", 7 * u.metre / u.second, 7 * 60 / 0.1), ("density", 5 * u.kg / u.metre ** 3, 5.0),
+             ("pure_number", 50 * u.percent, 0.5)]
+    for label, q, want in table:
+        try:
+            mag = float(CU.unitless_in_registry(q, reg))
+            du = CU.default_unit_in_registry(q, reg)
+            via = float(CU.to_unitless(q, du))
+            back = float(CU.to_unitless(mag * du, q.units)) / float(q.magnitude)        # multiplying back by the default unit reproduces the quantity
+            ok, det = abs(mag / want - 1) < 1e-12 and abs(via / want - 1) < 1e-12 and abs(back - 1) < 1e-12, "%r %r %r" % (mag, du, back)
+        except Exception as ex:
+            ok, det = False, repr(ex)
+        v.prove("registry_with_factors." + label, ok, detail=det)
 
 
 @harness("C09", "polyfit_with_further_outputs", functions=[U + ":polyfit"], kind="data")
